@@ -24,7 +24,8 @@ From KV Require Import Lib.Bits Lib.Bytes Lib.Varint Model.MsgSetReader Model.Re
   Proofs.ReaderBatch Proofs.ReaderProofs Proofs.ReaderLTS
   Proofs.ReaderPrim Proofs.ReaderV2 Proofs.ReaderV2Run Proofs.ReaderV2Sound Proofs.ReaderV2Final
   Proofs.ReaderV1 Proofs.ReaderV1Run Proofs.ReaderV1Final Proofs.ReaderMixedFinal
-  Proofs.ReaderWrap Proofs.ReaderWrapInner Proofs.ReaderWrapRun Proofs.ReaderWrapFinal Proofs.ReaderClose.
+  Proofs.ReaderWrap Proofs.ReaderWrapInner Proofs.ReaderWrapRun Proofs.ReaderWrapFinal Proofs.ReaderClose
+  Model.ReaderLookup Proofs.ReaderLookup.
 Import ListNotations.
 Open Scope Z_scope.
 
@@ -440,6 +441,19 @@ Theorem C02_redial_keeps_resolved_offset : forall run cfg g first last first2 la
   g_phase g = PInit -> 0 <= g_offset g -> first <= g_offset g -> g_offset g' = g_offset g.
 Proof. exact redial_keeps_resolved_offset. Qed.
 Print Assumptions C02_redial_keeps_resolved_offset.
+
+(* the connection of a Reader is bound to the CONFIGURED partition: Dialer.LookupPartition takes
+   the partition descriptor of the Metadata answer by its id ([lookup_partition]), so the
+   dialled partition ([dialled_partition]: the id DialPartition puts in the Conn, named by every
+   Fetch / ListOffsets) is the configured one, and the descriptor found (hence the leader
+   dialled) is the same for every order in which the broker lists the partitions *)
+Theorem C02_dialled_partition_is_configured : forall id ds p, dialled_partition id ds = Some p -> p = id.
+Proof. exact dialled_partition_is_configured. Qed.
+Print Assumptions C02_dialled_partition_is_configured.
+Theorem C02_lookup_partition_any_order : forall id ds ds',
+  NoDup (map pd_id ds) -> Permutation.Permutation ds ds' -> lookup_partition id ds' = lookup_partition id ds.
+Proof. exact lookup_partition_permutation. Qed.
+Print Assumptions C02_lookup_partition_any_order.
 
 (* C02_delivery_exact: for every label sequence (FetchMessage entries and receptions, SetOffset
    calls, steps of any generation — stale ones answered arbitrarily, cancelled ones cut
